@@ -143,11 +143,13 @@ _DIRS = ["", "dir/", "/abs/dir/", "./", "../up/", "dir.with.dots/", "dir with sp
 def path_strategy(pool):
     stem = st.one_of(st.sampled_from([s.rsplit("/", 1)[-1] for s in STEMS]),
                      st.text(alphabet=st.sampled_from("ab.Z _-\u00e9\u6587%#&!()"), min_size=0, max_size=8))
-    return st.tuples(st.sampled_from(_DIRS), stem, st.sampled_from(pool), st.integers(0, 2**30 - 1), st.booleans())
+    # what callers paste after a file name: URL queries and fragments, a trailing separator, blank or dot; whatever the router makes of it, both entry points must agree
+    tail = st.sampled_from(["", "", "", "", "?download=1", "?web=1", "#page=2", "?v=3.docx", "?a=b.pdf&c=d", "/", " ", ".", "?", "%20", ";type=a", "?x=.tar.gz"])
+    return st.tuples(st.sampled_from(_DIRS), stem, st.sampled_from(pool), st.integers(0, 2**30 - 1), st.booleans(), tail)
 
 
-def _mk(d, stem, ext, mask, dot=True):
-    p = f"{d}{stem}{'.' if dot else ''}{ext}"
+def _mk(d, stem, ext, mask, dot=True, tail=""):
+    p = f"{d}{stem}{'.' if dot else ''}{ext}{tail}"
     return flip_case(p, mask)
 
 
@@ -191,13 +193,13 @@ def shard(ctx: Ctx, cfg: str):
 
     # ---- random paths
     def ev(t):
-        d, stem, ext, mask, dot = t
-        path = _mk(d, stem, ext, mask, dot)
+        d, stem, ext, mask, dot, tail = t
+        path = _mk(d, stem, ext, mask, dot, tail)
         fails, sup, got = judge(path, cfg)
         v = record(path, fails, got, False)
         if not v and ref_route(path) is not None:
             # metamorphic: another directory / stem / case with the same trailing extension gives the same function
-            other = flip_case("zz/" + "q." + ext, mask >> 3) if dot else None
+            other = flip_case("zz/" + "q." + ext + tail, mask >> 3) if dot else None
             if other and ref_route(other) is not None and outcome(other)[1] != got:
                 v = [Violation("invariance", "C07:invariance", f"{path!r} -> {got} but {other!r} -> {outcome(other)[1]} [{cfg}]",
                                {"kind": "paths", "path": path, "cfg": cfg})]
